@@ -88,6 +88,10 @@ def cmd_check(args, vx):
     if gen_stale:
         tool_problems.append(gen_stale)
     known = load_known(vx.VERIF)
+    try:
+        shape_baseline = json.load(open(os.path.join(vx.VERIF, "contracts", "shape_baseline.json")))
+    except Exception:
+        shape_baseline = {}
     obligations = discharged = 0
     fn_records, samples, rewrites, items_all = [], [], [], []
     samples_tagged = []
@@ -125,6 +129,17 @@ def cmd_check(args, vx):
             info = vx.diag_info(res, d)
             nf = calls_new(info) if k not in ("frontend", "rlimit") else None
             idx0 = info.get("item_index")
+            # a closure or loop the template has no contract for (more of them than on the tree the contracts were written
+            # for): Verus knows nothing about an exec closure without `ensures` or a loop without invariant
+            if k not in ("frontend", "rlimit") and idx0 is not None:
+                it0 = res.gen.items[idx0]
+                b0 = shape_baseline.get(f"{u}:{it0['name']}")
+                if b0 and (it0.get("n_closures", 0) > b0["closures"] or it0.get("n_loops", 0) > b0["loops"]):
+                    what = "closure" if it0.get("n_closures", 0) > b0["closures"] else "loop"
+                    msg = f"unit {u}: `{info['item']}` contains a {what} for which the template has no contract (added after the contracts were written): its obligation `{info['obligation'][:120]}` is undecided"
+                    if msg not in tool_problems:
+                        tool_problems.append(msg)
+                    continue
             if k not in ("frontend", "rlimit") and idx0 is not None and res.gen.items[idx0].get("via_rest"):
                 msg = f"unit {u}: `{info['item']}` was added without a contract (no precondition): its own obligation `{info['obligation'][:120]}` is undecided"
                 if msg not in tool_problems:
